@@ -62,7 +62,7 @@ def judge_c13(d):
 
 
 PROPS["C13"] = {
-    "lean_modules": ["P2.Props.C13Gen"],
+    "lean_modules": ["P2.Props.C13Gen", "P2.Props.C13"],
     "audit_module": "P2.Audit.C13",
     "harness_prop": "c13",
     "profile": "verif",
@@ -93,7 +93,7 @@ def judge_c12(d):
 
 
 PROPS["C12"] = {
-    "lean_modules": ["P2.Props.C12"],
+    "lean_modules": ["P2.Props.C12", "P2.Props.C12b"],
     "audit_module": "P2.Audit.C12",
     "harness_prop": "c12",
     "profile": "release",
